@@ -1171,43 +1171,153 @@ SOCKET_LEAVES = {
 
 
 def tr_socket_chain(repo, docs, src):
-    """`Driver::DriverImpl::DoOneSocketTask(received)`: the per-socket `if / else if` chain of its `for` loop as a
-    decision function of the socket's `revents` and of `i == received` (what the model calls `pick`)"""
+    """`Driver::DriverImpl::DoOneSocketTask(received)`: what it does with ONE socket of its list, as a decision
+    function of that socket's `revents` and of "this is the socket `QuerySockets` returned" (the model's `pick`).
+    The chain of tests is found in the body of the loop over the sockets, or in the helper function of the same file
+    that the loop body calls with the socket; it may be an `if / else if` chain or a sequence of `if(..) {..; return ..;}`.
+    Each branch is recognised by the ONE `sock.DriverOn*` call it makes (the writable branch must be exactly
+    `if(sock.DriverOnWritable()) { pfd.events &= ~POLLOUT; }`) and must end in a `return`."""
     fn = find_function(docs, "DoOneSocketTask", "DriverImpl", ("CXXMethodDecl",))
     t = Fn(repo, [("revents", INTS["unsigned int"]), ("isReceived", BOOL)], {})
     t.bind_params(fn)
     t.file = _file_of(repo, docs, fn, src)
     top = [x for x in kids(body_of(fn)) if not _is_assert(x)]
-    if len(top) != 2 or top[0]["kind"] != "ForStmt" or _src_norm(t, top[1]) not in (
-            'throwstd::logic_error("unhandledpollevent")', 'throwstd::logic_error("unhandledpollevent");'):
-        fail("body is not `for(..) {..} throw std::logic_error(\"unhandled poll event\")`")
-    fk = kids(top[0])
-    head = _src_norm(t, top[0])
-    if not head.startswith("for(size_ti=0U;i<sockets.size();++i)"):
-        fail("loop header is `%s`" % head[:50])
-    ss = [x for x in kids(fk[-1]) if not _is_assert(x)]
-    decls = [x for x in ss if x["kind"] == "DeclStmt"]
-    rest = [x for x in ss if x["kind"] != "DeclStmt"]
-    if sorted(_src_norm(t, d) for d in decls) != sorted(["auto&&pfd=pfds[i+1U];", "auto&&sock=sockets[i].get();"]):
-        fail("the loop body does not start with the bindings of `pfd` and `sock`")
-    if len(rest) != 1 or rest[0]["kind"] != "IfStmt":
-        fail("the loop body is not one if / else-if chain")
+    loops = [x for x in top if x["kind"] in ("ForStmt", "CXXForRangeStmt")]
+    if len(loops) != 1 or _strip(top[-1])["kind"] != "CXXThrowExpr" or top.index(loops[0]) != len(top) - 2:
+        fail("body is not `.. for(each socket) {..} throw std::logic_error(..)`")
+    if "sockets" not in _src_norm(t, loops[0]).split("{")[0]:
+        fail("the loop does not run over `sockets`")
+    body = kids(loops[0])[-1]
+    ss = [x for x in (kids(body) if body["kind"] == "CompoundStmt" else [body]) if not _is_assert(x)]
+    received_names = set()
 
-    def chain(n, ind):
+    def is_received(n):
+        n = _strip(n)
+        while n["kind"] == "ImplicitCastExpr" and len(kids(n)) == 1:
+            n = _strip(kids(n)[0])
+        if n["kind"] == "BinaryOperator" and n.get("opcode") == "==" and "received" in (canon(kids(n)[0]), canon(kids(n)[1])):
+            return True
+        return n["kind"] == "DeclRefExpr" and n.get("referencedDecl", {}).get("name") in received_names
+
+    def cond(n):
+        n = _strip(n)
+        while n["kind"] == "ImplicitCastExpr" and len(kids(n)) == 1:
+            n = _strip(kids(n)[0])
+        if is_received(n):
+            return "(isReceived = true)"
+        k = n["kind"]
+        if k == "BinaryOperator" and n.get("opcode") in ("||", "&&"):
+            return "(%s %s %s)" % (cond(kids(n)[0]), "∨" if n["opcode"] == "||" else "∧", cond(kids(n)[1]))
+        if k == "UnaryOperator" and n.get("opcode") == "!":
+            return "(¬ %s)" % cond(kids(n)[0])
+        if k == "BinaryOperator" and n.get("opcode") == "&":
+            if canon(kids(n)[0]) not in ("pfd.revents", "pfd->revents"):
+                fail("bit test of `%s`" % canon(kids(n)[0])[:40])
+            return "(revents &&& %d ≠ 0)" % _const_int(kids(n)[1])
+        if k == "BinaryOperator" and n.get("opcode") in ("!=", "==") and kids(n)[0] and \
+                _strip(kids(n)[0])["kind"] in ("ParenExpr", "BinaryOperator", "ImplicitCastExpr"):
+            # `(pfd.revents & MASK) != 0`
+            try:
+                if _const_int(kids(n)[1]) == 0:
+                    c = cond(kids(n)[0])
+                    return c if n["opcode"] == "!=" else "(¬ %s)" % c
+            except Untranslatable:
+                pass
+        fail("condition of the dispatch chain outside the subset (%s)" % k)
+
+    # the chain itself: here, or in the helper the loop body hands the socket to
+    host_file = t.file
+    calls = [x for st_ in ss for x in walk(st_) if x.get("kind") in ("CallExpr", "CXXMemberCallExpr")
+             and any(y.get("kind") == "DeclRefExpr" and y.get("referencedDecl", {}).get("name") == "sock" for a in kids(x)[1:] for y in walk(a))]
+    chain_stmts = None
+    if any(x["kind"] == "IfStmt" and any(c in _src_norm(t, x) for c in ("DriverOnReadable", "DriverOnError")) for x in ss):
+        chain_stmts = [x for x in ss if x["kind"] == "IfStmt"]
+        extra = [x for x in ss if x["kind"] not in ("IfStmt", "DeclStmt")]
+        if extra:
+            fail("the loop body contains `%s`" % _src_norm(t, extra[0])[:50])
+    elif len(calls) == 1:
+        call = calls[0]
+        callee = kids(call)[0]
+        name = callee.get("name") if callee.get("kind") == "MemberExpr" else None
+        if name is None:
+            try:
+                name = t.callee(call)[0]
+            except Untranslatable:
+                fail("the loop body calls something that is not a named function")
+        hdocs = ast_docs(repo, src, name)
+        cands = {}
+        for d in hdocs:
+            for x in walk(d):
+                if x.get("kind") in ("FunctionDecl", "CXXMethodDecl") and x.get("name") == name and body_of(x) is not None \
+                        and len([c for c in kids(x) if c["kind"] == "ParmVarDecl"]) == len(kids(call)) - 1:
+                    cands[x.get("id")] = x
+        if len(cands) != 1:
+            fail("helper `%s` of the loop body: %d definitions" % (name, len(cands)))
+        h = list(cands.values())[0]
+        host_file = _file_of(repo, hdocs, h, src)
+        # its bool parameter that receives `index == received`
+        for p, a in zip([c for c in kids(h) if c["kind"] == "ParmVarDecl"], kids(call)[1:]):
+            if is_received(a):
+                received_names.add(p.get("name"))
+        # the call must decide the `return` of the loop: `if(helper(..)) return;`
+        holder = [x for x in ss if any(y is call for y in walk(x))][0]
+        if holder["kind"] != "IfStmt" or _src_norm(t, kids(holder)[1]).strip("{}") not in ("return;", "return"):
+            fail("the result of `%s` does not decide the `return` of the loop" % name)
+        chain_stmts = [x for x in kids(body_of(h)) if not _is_assert(x)]
+        if _src_norm(_Tmp(host_file), chain_stmts[-1]) not in ("returnfalse", "returnfalse;"):
+            fail("helper `%s` does not end in `return false`" % name)
+        chain_stmts = chain_stmts[:-1]
+    else:
+        fail("no dispatch chain found in the loop over the sockets")
+    tt = _Tmp(host_file)
+
+    def flatten(stmts):
+        out = []
+        for x in stmts:
+            if x["kind"] != "IfStmt":
+                fail("the chain contains `%s`" % _src_norm(tt, x)[:50])
+            n = x
+            while True:
+                parts = kids(n)
+                out.append((parts[0], parts[1]))
+                if len(parts) == 2:
+                    break
+                if parts[2]["kind"] != "IfStmt":
+                    fail("the chain ends in a plain else")
+                n = parts[2]
+        return out
+
+    def leaf(n):
+        inner = kids(n) if n["kind"] == "CompoundStmt" else [n]
+        if not inner or inner[-1]["kind"] != "ReturnStmt":
+            fail("a branch of the chain does not end in a return")
+        eff = inner[:-1]
+        names = sorted({m for x in eff for m in re.findall(r"sock\.(DriverOn\w+)\(", _src_norm(tt, x))})
+        if names == ["DriverOnReadable"] and len(eff) == 1 and _src_norm(tt, eff[0]).rstrip(";") == "sock.DriverOnReadable()":
+            return ".readable"
+        if names == ["DriverOnWritable"] and len(eff) == 1 and \
+                _src_norm(tt, eff[0]) in ("if(sock.DriverOnWritable()){pfd.events&=~POLLOUT;}",):
+            return ".writable"
+        if names == ["DriverOnError"] and len(eff) == 1 and re.match(r'^sock\.DriverOnError\("[^"]*"\);?$', _src_norm(tt, eff[0])):
+            return ".error"
+        fail("unrecognised task `%s`" % "".join(_src_norm(tt, x) for x in eff)[:80])
+    branches = [(cond(c), leaf(b)) for c, b in flatten(chain_stmts)]
+
+    def render(i, ind):
         pad = "  " * ind
-        parts = kids(n)
-        c = _bit_cond(parts[0])
-        leaf = "".join(_src_norm(t, x).rstrip(";") + ";" for x in (kids(parts[1]) if parts[1]["kind"] == "CompoundStmt" else [parts[1]]))
-        if leaf not in SOCKET_LEAVES:
-            fail("unrecognised task `%s`" % leaf[:80])
-        if len(parts) == 2:
-            el = pad + "  .next"
-        elif parts[2]["kind"] == "IfStmt":
-            el = chain(parts[2], ind + 1)
-        else:
-            fail("the chain ends in a plain else")
-        return "%sif %s then\n%s  %s\n%selse\n%s" % (pad, c, pad, SOCKET_LEAVES[leaf], pad, el)
-    return t, chain(rest[0], 1)
+        if i == len(branches):
+            return pad + ".next"
+        return "%sif %s then\n%s  %s\n%selse\n%s" % (pad, branches[i][0], pad, branches[i][1], pad, render(i + 1, ind + 1))
+    return t, render(0, 1)
+
+
+class _Tmp:
+    """just enough of `Fn` for `_src_norm` on a node of another file"""
+    def __init__(self, file):
+        self.file = file
+
+    def source_text(self, n):
+        return Fn.source_text(self, n)
 
 
 def tr_range_guard(repo, docs, src):
